@@ -59,46 +59,43 @@ func (c *Consistent) hash(key string) int64 {
 
 // pick get a  node
 func (c *Consistent) pick(sessions *sync.Map, key string) getty.Session {
+	// the circle always describes the sessions that are open now: one built
+	// earlier may hold closed sessions and misses every session opened since
+	c.refreshHashCircle(sessions)
+
+	c.RLock()
+	defer c.RUnlock()
+	if len(c.sortedHashNodes) == 0 {
+		return nil
+	}
+
 	hashKey := c.hash(key)
 	index := sort.Search(len(c.sortedHashNodes), func(i int) bool {
 		return c.sortedHashNodes[i] >= hashKey
 	})
-
+	// past the last node the circle starts over
 	if index == len(c.sortedHashNodes) {
-		return RandomLoadBalance(sessions, key)
+		index = 0
 	}
-
-	c.RLock()
-	session, ok := c.hashCircle[c.sortedHashNodes[index]]
-	if !ok {
-		c.RUnlock()
-		return RandomLoadBalance(sessions, key)
-	}
-	c.RUnlock()
-
-	if session.IsClosed() {
-		go c.refreshHashCircle(sessions)
-		return c.firstKey()
-	}
-
-	return session
+	return c.hashCircle[c.sortedHashNodes[index]]
 }
 
 // refreshHashCircle refresh hashCircle
 func (c *Consistent) refreshHashCircle(sessions *sync.Map) {
 	var sortedHashNodes []int64
 	hashCircle := make(map[int64]getty.Session)
-	var session getty.Session
 	sessions.Range(func(key, value interface{}) bool {
-		session = key.(getty.Session)
+		session := key.(getty.Session)
+		if session.IsClosed() {
+			sessions.Delete(key)
+			return true
+		}
 		for i := 0; i < defaultVirtualNodeNumber; i++ {
-			if !session.IsClosed() {
-				position := c.hash(fmt.Sprintf("%s%d", session.RemoteAddr(), i))
-				hashCircle[position] = session
+			position := c.hash(fmt.Sprintf("%s%d", session.RemoteAddr(), i))
+			if _, taken := hashCircle[position]; !taken {
 				sortedHashNodes = append(sortedHashNodes, position)
-			} else {
-				sessions.Delete(key)
 			}
+			hashCircle[position] = session
 		}
 		return true
 	})
@@ -108,6 +105,8 @@ func (c *Consistent) refreshHashCircle(sessions *sync.Map) {
 		return sortedHashNodes[i] < sortedHashNodes[j]
 	})
 
+	c.Lock()
+	defer c.Unlock()
 	c.sortedHashNodes = sortedHashNodes
 	c.hashCircle = hashCircle
 }
